@@ -90,3 +90,19 @@ Print Assumptions C09_csv_configuration_well_formed.
 Print Assumptions C09_csv_tokenization_lossless.
 Print Assumptions C09_decoding_never_resegments.
 Print Assumptions C09_quoted_field_reads_back.
+
+(* State space: the objects this property's model stands for have exactly the fields the model accounts for (StateSpace.v;
+   gen/StateSpaceGen.v is regenerated from the Go sources on every run). A new field - a cache, a memo, a counter - is state
+   the model does not have, so the theorems above would no longer be about the object. *)
+From Coq Require Import String.
+Require Import StateSpaceGen StateSpace.
+Open Scope string_scope.
+Theorem C09_state_space :
+  fields_of "csv.CsvTokenizer" = fields ["embedded *tokenizers.AbstractTokenizer"; "fieldSeparators"; "quoteSymbols"; "endOfLine"] /\
+  fields_of "csv.CsvWordState" = fields ["embedded *generic.GenericWordState"] /\
+  fields_of "csv.CsvQuoteState" = fields [] /\
+  fields_of "csv.CsvSymbolState" = fields ["embedded *generic.GenericSymbolState"] /\
+  fields_of "tokenizers.AbstractTokenizer" = fields ["Overrides"; "mp"; "skipUnknown"; "skipWhitespaces"; "skipComments"; "skipEof"; "mergeWhitespaces"; "unifyNumbers"; "decodeStrings"; "commentState"; "numberState"; "quoteState"; "symbolState"; "whitespaceState"; "wordState"; "Scanner"; "NextTokenValue"; "LastTokenType"] /\
+  fields_of "io.StringScanner" = fields ["content"; "position"; "line"; "column"].
+Proof. vm_compute. repeat split; reflexivity. Qed.
+Print Assumptions C09_state_space.
